@@ -105,7 +105,9 @@ def run(config: Config) -> int:
         for process in processes:
             process.terminate()
 
-        exitcode = _join_exited(processes) if exitcode != 0 else exitcode
+        # The exit code of the worker that failed (if any) is the one
+        # to return, not that of whatever else has exited by now
+        _join_exited(processes)
 
         for sock in sockets.secure_sockets:
             sock.close()
